@@ -71,3 +71,78 @@ class RefPOMDP:
 
     def belief_absorbing(self, b):
         return all(self.absorbing[s] for s, p in b.items() if p > 0)
+
+
+# ---------------------------------------------------------------------------------------------
+# float expectimax on (unnormalised) belief mass vectors; absorbing states are worth 0
+# ---------------------------------------------------------------------------------------------
+import numpy as np
+
+
+class RefPOMDPArrays:
+    def __init__(self, spec):
+        rm = RefMDP(spec)
+        self.n, self.m, self.k = spec["n"], spec["m"], spec["k"]
+        self.gamma = float(spec["gamma"])
+        self.nt = ~rm.absorbing
+        self.absorbing = rm.absorbing
+        self.T = rm.T * self.nt[:, None, None]
+        self.SR = rm.SR * self.nt[:, None]
+        self.T_full, self.SR_full, self.R_full = rm.T, rm.SR, rm.R
+        O = np.zeros((self.m, self.n, self.k))
+        for a in range(self.m):
+            for ns in range(self.n):
+                row = spec["obs"][a][ns]
+                tot = sum(w for _, w in row)
+                for o, w in row:
+                    O[a, ns, o] = w / tot
+        self.O = O
+        self.p0 = rm.p0
+        self.rm = rm
+        live = self.SR[self.nt]
+        self.rmin = float(live.min()) if live.size else 0.0
+        self.rmax = float(live.max()) if live.size else 0.0
+
+    def successors(self, w, a):
+        """unnormalised successor mass vectors per observation"""
+        pred = w @ self.T[:, a, :]
+        return [pred * self.O[a, :, o] for o in range(self.k)]
+
+    def vk(self, w, depth, leaf=0.0):
+        """finite-horizon optimal value of mass vector w; leaf(w) value per unit of non-absorbing mass"""
+        if depth == 0:
+            return leaf * float(w[self.nt].sum())
+        best = -np.inf
+        for a in range(self.m):
+            v = float(w @ self.SR[:, a])
+            for w2 in self.successors(w, a):
+                if w2.sum() > 0:
+                    v += self.gamma * self.vk(w2, depth - 1, leaf)
+            best = max(best, v)
+        return best
+
+    def lower(self, w, depth):
+        return self.vk(w, depth, leaf=min(0.0, self.rmin) / (1 - self.gamma))
+
+    def upper(self, w, depth):
+        return self.vk(w, depth, leaf=max(0.0, self.rmax) / (1 - self.gamma))
+
+    def reachable_beliefs(self, steps):
+        """normalised beliefs reachable from p0 within `steps` steps (full, unmasked dynamics as the
+        belief filter sees them)"""
+        out = [self.p0.copy()]
+        frontier = [self.p0.copy()]
+        for _ in range(steps):
+            nxt = []
+            for b in frontier:
+                for a in range(self.m):
+                    pred = b @ self.T_full[:, a, :]
+                    for o in range(self.k):
+                        w2 = pred * self.O[a, :, o]
+                        if w2.sum() > 1e-15:
+                            nb = w2 / w2.sum()
+                            if not any(np.allclose(nb, x, atol=1e-12) for x in out):
+                                out.append(nb)
+                                nxt.append(nb)
+            frontier = nxt
+        return out
